@@ -187,7 +187,7 @@ class VC:
                     return l - r
                 if isinstance(e.op, ast.Mult):
                     return l * r
-            return Opaque("binop:" + type(e.op).__name__, l, r)
+            return self.binop(type(e.op).__name__, l, r, st)
         if isinstance(e, ast.Subscript):
             base = self.ev(e.value, st)
             if isinstance(e.slice, ast.Slice):
@@ -308,6 +308,11 @@ class VC:
         for s in stmts:
             if isinstance(s, ast.Expr) and isinstance(s.value, ast.Constant):
                 continue
+            if (isinstance(s, ast.Assign) and len(s.targets) == 1 and isinstance(s.targets[0], ast.Name) and isinstance(s.value, ast.BinOp)
+                    and isinstance(s.value.left, ast.Name) and s.value.left.id == s.targets[0].id and s.targets[0].id in st.env
+                    and isinstance(s.value.op, (ast.Add, ast.Sub, ast.Mult, ast.Div))):
+                # `x = x + v` is the same statement as `x += v` (for the scalars and fresh accumulators of the verified subset)
+                s = ast.copy_location(ast.AugAssign(target=s.targets[0], op=s.value.op, value=s.value.right), s)
             if isinstance(s, ast.Assign):
                 v = self.ev(s.value, st)
                 tgt = s.targets[0]
@@ -393,3 +398,6 @@ class VC:
 
     def augassign(self, name, op, cur, v, st):
         return Opaque("aug:" + op, cur, v)
+
+    def binop(self, op, l, r, st):
+        return Opaque("binop:" + op, l, r)
